@@ -34,12 +34,22 @@ def sh(cmd, cwd=None, env=None, timeout=None, check=True):
     e["CARGO_NET_OFFLINE"] = "true"
     if env:
         e.update(env)
+    tmpdir = None
+    if cmd and cmd[0] == "tlc":
+        # TLC unpacks its standard modules into a fresh directory under java.io.tmpdir on every run
+        # and leaves it there: keep that inside the work directory and remove it afterwards
+        tmpdir = os.path.join(WORK, "tlctmp_%d_%d" % (os.getpid(), int(time.time() * 1000) % 100000000))
+        os.makedirs(tmpdir, exist_ok=True)
+        e["JAVA_TOOL_OPTIONS"] = (e.get("JAVA_TOOL_OPTIONS", "") + " -Djava.io.tmpdir=" + tmpdir).strip()
     t0 = time.time()
     try:
         p = subprocess.run(cmd, cwd=cwd, env=e, timeout=timeout, stdout=subprocess.PIPE,
                            stderr=subprocess.STDOUT, text=True, errors="replace")
     except subprocess.TimeoutExpired:
         raise ToolError("timeout after %ss: %s" % (timeout, " ".join(cmd)[:200]))
+    finally:
+        if tmpdir:
+            shutil.rmtree(tmpdir, ignore_errors=True)
     if check and p.returncode != 0:
         raise ToolError("command failed (%d): %s\n%s" % (p.returncode, " ".join(cmd)[:300], p.stdout[-3000:]))
     return p.returncode, p.stdout, time.time() - t0
@@ -90,7 +100,7 @@ def workdir(name):
 
 
 # ------------------------------------------------------------------ TLC
-def tlc_trace(trace, metadir, timeout=1500, spec="Trace"):
+def tlc_trace(trace, metadir, timeout=9000, spec="Trace"):
     """Validates one ndjson trace. Returns dict(accepted, events, matched, unmatched, mons, states)."""
     env = {"TRACE": trace, "JAVA_TOOL_OPTIONS": "-Xss1g -Xmx6g"}
     cmd = ["tlc", "-workers", "1", "-metadir", metadir, "-cleanup", "-noGenerateSpecTE",
@@ -173,7 +183,7 @@ def record(fams, seed, tier, count, outdir, name="t", start=0, stride=1):
     scn = os.path.join(outdir, name + ".scn.ndjson")
     sh([PVH, "trace", "--fams", ",".join(fams), "--seed", str(seed), "--tier", tier,
         "--count", str(count), "--start", str(start), "--stride", str(stride),
-        "--out", trace, "--scn", scn], timeout=3000)
+        "--out", trace, "--scn", scn], timeout=9000)
     return trace, scn
 
 
@@ -585,8 +595,8 @@ def check_C07(res, tier, seed):
              "C04.OptimalIsBest": "C07.Optimum", "C04.OptimalIsSolution": "C07.Optimum",
              "C04.UnsatRight": "C07.Verdict", "C02.NoTermination": "C07.Termination",
              "C10.NoHang": "C07.Termination", "C10.NoPanic": "C07.Panic"}
-    out, counts = tv_part(res, ["configs"], n(tier, 160, 1600), seed, tier, "configs", adopt=adopt,
-                          min_events={"Learned": 50, "Restart": 5, "NogoodDeleted": 3, "Flip": 5})
+    out, counts = tv_part(res, ["configs"], n(tier, 240, 1600), seed, tier, "configs", adopt=adopt,
+                          min_events={"Learned": 30, "Restart": 5, "NogoodDeleted": 3, "Flip": 5})
     # constant clean-up of the nogood database next to a half-reified element (lazy reasons wrapped
     # by a reification)
     tv_part(res, ["dbclean"], n(tier, 80, 800), seed, tier, "dbclean", adopt=adopt,
